@@ -96,7 +96,18 @@ def run(ctx):
         g = asm.gen_wellformed(rng, enz, rng.randint(1, 4))
         if g is None:
             continue
-        case = g[0]
+        case, info0 = g
+        if rng.random() < 0.25:
+            # a module too many, which happens to start on the overhang the chain closes on (the next position of
+            # the kit): left over on both strands
+            try:
+                wd, _ = gen.gen_module(rng, enz, info0["vparts"]["o3"], gen.ovh(rng, enz), tries=100)
+                used = [m["o5"] for m in info0["mparts"]] + [info0["vparts"]["o3"]]
+                o3 = _["o3"]
+                if o3 not in used and gen.rc(o3) not in used and gen.rc(o3) != o3:
+                    case["mods"].append(asm.ent_json(70, "generic:M:" + str(enz), wd))
+            except RuntimeError:
+                pass
         if rng.random() < 0.35:
             # soft-masked records: the two strands must still be treated alike
             for e in [case["vector"]] + case["mods"]:
